@@ -774,9 +774,15 @@ def identity_cases(ctx: Ctx, pk: dict):
     return out
 
 
+BLACKLIST = b"__blacklist__"      # pseudo key in a `pre` list: the address is put into Network.blacklist (bootstrap servers)
+
+
 def apply_pre(node, pre):
     from ipv8.peer import Peer
     for pub, a in pre:
+        if pub == BLACKLIST:
+            node.overlay.network.blacklist.append(a)
+            continue
         p = Peer(pub, a)
         node.overlay.network.add_verified_peer(p)
         node.overlay.network.discover_services(p, [node.overlay.community_id])
@@ -784,7 +790,11 @@ def apply_pre(node, pre):
 
 def undo_pre(node, pre, extra_keys=()):
     net = node.overlay.network
-    for pub in [k for k, _ in pre] + list(extra_keys):
+    for pub, a in pre:
+        if pub == BLACKLIST:
+            while a in net.blacklist:
+                net.blacklist.remove(a)
+    for pub in [k for k, _ in pre if k != BLACKLIST] + list(extra_keys):
         p = net.verified_by_public_key_bin.get(pub)
         if p is not None:
             net.remove_peer(p)
@@ -896,7 +906,8 @@ async def deliver(node, obs: Observer, src, data: bytes, watch=(), prelude: byte
     for k in watch:
         pr = net.verified_by_public_key_bin.get(k)
         if pr is not None:
-            watched[bytes(k)] = (pr, peer_state(pr))
+            watched[bytes(k)] = (pr, peer_state(pr), pr.last_response,
+                                 any(tuple(a) == tuple(src) for a in pr.addresses.values()))
     obs.events = []
     obs.current = data
     obs.active = True
@@ -914,7 +925,10 @@ async def deliver(node, obs: Observer, src, data: bytes, watch=(), prelude: byte
         obs.active = False
     after = set(net.verified_by_public_key_bin.keys())
     after_peers = {bytes(p.public_key.key_to_bin()) for p in net.verified_peers}
-    moved = [k for k, (pr, st) in watched.items() if peer_state(pr) != st]
+    moved = [k for k, (pr, st, _lr, _at) in watched.items() if peer_state(pr) != st]
+    # liveness credited to a stored Peer that is NOT recorded at the datagram's source address: the credit then comes from
+    # what the datagram says (the credit by transport address alone is seen, not judged)
+    obs.credited = [k for k, (pr, _st, lr, at_src) in watched.items() if pr.last_response != lr and not at_src]
     return list(obs.events), (after - before) | (after_peers - before_peers), moved
 
 
@@ -1244,6 +1258,8 @@ async def run_async(ctx: Ctx, use_model: bool, scale: dict):
                 cc["pre"] = (cc.get("pre") or []) + [(bytes(fresh_key(ctx, "curve25519").pub().key_to_bin()), src)]
             elif state == "signer-verified-at-src" and okey is not None:
                 cc["pre"] = (cc.get("pre") or []) + [(okey, src)]
+            elif state == "source-blacklisted":
+                cc["pre"] = (cc.get("pre") or []) + [(BLACKLIST, src)]
             elif state == "signer-verified-elsewhere" and okey is not None:
                 cc["pre"] = (cc.get("pre") or []) + [(okey, UDPv4Address("10.%d.%d.%d" % (ctx.rng.randrange(1, 255), ctx.rng.randrange(256),
                                                                  ctx.rng.randrange(1, 255)), ctx.rng.randrange(1024, 65535)))]
@@ -1251,13 +1267,14 @@ async def run_async(ctx: Ctx, use_model: bool, scale: dict):
         if dispatch_level:
             c["srcstate"] = "as-captured"
             extra.append(with_state(c, "other-verified-peer-at-src"))
+            extra.append(with_state(c, "source-blacklisted"))
             if okey is not None:
                 extra.append(with_state(c, "signer-verified-at-src"))
                 extra.append(with_state(c, "signer-verified-elsewhere"))
         else:
             st = ctx.rng.choice(["as-captured", "other-verified-peer-at-src", "signer-verified-at-src",
-                                 "signer-verified-elsewhere", "signer-verified-elsewhere"])
-            if st != "as-captured" and (st == "other-verified-peer-at-src" or okey is not None):
+                                 "signer-verified-elsewhere", "signer-verified-elsewhere", "source-blacklisted"])
+            if st != "as-captured" and (st in ("other-verified-peer-at-src", "source-blacklisted") or okey is not None):
                 c.update(with_state(c, st))
             else:
                 c["srcstate"] = "as-captured"
@@ -1285,6 +1302,11 @@ async def run_async(ctx: Ctx, use_model: bool, scale: dict):
         if len(ak) == kl_:
             forged.append(("other-key-random-signature",
                            d[:25] + ak + d[25 + kl_:-n_] + bytes(ctx.rng.randrange(256) for _ in range(n_))))
+        vk_ = bytes(fresh_key(ctx, p["curve"]).pub().key_to_bin())
+        if len(vk_) == kl_:
+            # names ANOTHER key but is signed by the sender of the datagram just before it, from the same address
+            body_ = d[:25] + vk_ + d[25 + kl_:-n_]
+            forged.append(("other-key-signed-by-previous-sender", body_ + bytes(r.PrivateKey(p["sk"]).signature(body_))))
         for lab, fd in forged:
             cases.append({"target": p["overlay"], "data": fd, "op": "back-to-back", "cls": lab, "origin": p["overlay"],
                           "curve": p["curve"], "src": p["src"], "prelude": d, "srcstate": "after-authentic-datagram"})
@@ -1377,7 +1399,7 @@ async def run_async(ctx: Ctx, use_model: bool, scale: dict):
                                              c["m_rem"]) else "0") + \
                           ("1" if decode_bit(node, [GlobalTimeDistributionPayload, mp.IntroductionRequestPayload],
                                              c["m_rem"]) else "0")
-            watch = [k for k, _ in pre] + [x for x in (sp["canon"], sp["key_field"], net_addr) if x]
+            watch = [k for k, _ in pre if k != BLACKLIST] + [x for x in (sp["canon"], sp["key_field"], net_addr) if x]
             events, new_keys, moved = await deliver(node, obs, c["src"], data, watch, c.get("prelude"))
             # NetOK on the live index, while the prepared / newly added entries are still there
             netw = node.overlay.network
@@ -1469,6 +1491,14 @@ async def run_async(ctx: Ctx, use_model: bool, scale: dict):
                     ctx.oracle_fail(f"{hname}:verified-peer-moved",
                                     f"{tgt} msg {data[22] if len(data) > 22 else '-'}: the address book of the stored verified "
                                     f"Peer {k.hex()[:24]}… changed although the datagram is not authentic for that key "
+                                    f"({c['op']}/{c['cls']}/{c.get('srcstate')})", replay)
+            # liveness of a stored Peer refreshed because the datagram NAMES its key (not because it came from its address)
+            for k in getattr(obs, "credited", []):
+                kc = (real_parse(k) or (None, None, k))[2]
+                if not (sp["authentic"] and kc == sp["canon"] and data[:22] == t["prefix"]):
+                    ctx.oracle_fail("Community.on_packet:liveness-credited-to-named-key",
+                                    f"{tgt}: last_response of the stored verified Peer {k.hex()[:24]}… (not recorded at the "
+                                    f"source address) was refreshed by a datagram that is not authentic for that key "
                                     f"({c['op']}/{c['cls']}/{c.get('srcstate')})", replay)
             # payloads handed to the handler are the ones encoded in the signed bytes
             if sp["authentic"] and h is not None and h["kind"] in ("signed", "signedWd") and entered:
